@@ -129,9 +129,15 @@ def check(env, rep, tier):
                 tr = (call.term.get("callee") or {}).get("trait")
                 if tr == "core::fmt::Write" and call.args and derives_from_sink(s, call.args[0]):
                     key = (call.site["id"], call.site["bb"])
-                    e = write_sites.setdefault(key, {"site": call.site, "ok": True, "name": call.name})
+                    e = write_sites.setdefault(key, {"site": call.site, "ok": True, "name": call.name, "after_unrecorded": False})
                     if slot_state(s) != {0}:
                         e["ok"] = False
+                    if s.ghost.get(("inj", "unrecorded")):
+                        # the previous write's outcome has not been recorded or examined yet
+                        e["after_unrecorded"] = True
+                    s.ghost[("inj", "unrecorded")] = True
+                elif call.path.endswith("core::ops::try_trait::Try>::branch"):
+                    s.ghost.pop(("inj", "unrecorded"), None)
                 else:
                     # nothing else may get mutable access to the slot or use the sink
                     for a in call.args:
@@ -145,6 +151,7 @@ def check(env, rep, tier):
 
             def store_hook(I_, ctx, s, place, v, site):
                 if place == slot:
+                    s.ghost.pop(("inj", "unrecorded"), None)
                     key = (site["id"], site["bb"], site.get("si"))
                     e = store_sites.setdefault(key, {"site": site, "ok": True})
                     if slot_state(s) != {0}:
@@ -178,10 +185,13 @@ def check(env, rep, tier):
                    e["ok"], "sink write %s at %s:%s in %s can happen after an error was recorded (slot not known to be None): "
                    "text reaches the sink after a failed write and the failure may be overwritten" % (e["name"], s["file"], s["line"], s["fn"]),
                    s, sample={"rule": "C18.1", "site": "%s:%s" % (s["file"], s["line"]), "fn": s["fn"], "write": e["name"], "in_clear_state": e["ok"]})
-        rep.floor("C18.1", "sink write call sites", len(write_sites), 14)
+            rep.ob("C18.1", "%s|%s|unrecorded|%d" % (s["fn"], e["name"], sum(1 for k2, e2 in write_sites.items() if e2["site"]["fn"] == s["fn"] and e2["name"] == e["name"] and (e2["site"]["line"], k2) < (s["line"], key))),
+                   not e["after_unrecorded"],
+                   "sink write %s at %s:%s in %s is issued before the outcome of the previous write was recorded: if that write failed, text still reaches the sink after the failure" % (e["name"], s["file"], s["line"], s["fn"]), s)
+        rep.floor("C18.1", "sink write call sites", len(write_sites), 5)
         for key, e in sorted(store_sites.items(), key=lambda x: (x[1]["site"]["fn"], x[1]["site"]["line"])):
             s = e["site"]
             rep.ob("C18.2", "%s|store|%d" % (s["fn"], sum(1 for k2, e2 in store_sites.items() if e2["site"]["fn"] == s["fn"] and (e2["site"]["line"], k2) < (s["line"], key))),
                    e["ok"], "store to the error slot at %s:%s in %s can overwrite a recorded error" % (s["file"], s["line"], s["fn"]), s,
                    sample={"rule": "C18.2", "site": "%s:%s" % (s["file"], s["line"]), "fn": s["fn"], "slot_clear_before_store": e["ok"]})
-        rep.floor("C18.2", "stores to the error slot", len(store_sites), 14)
+        rep.floor("C18.2", "stores to the error slot", len(store_sites), 3)
